@@ -600,7 +600,11 @@ pub fn check(hdr: &str, lines: &[String], trace: &[(String, String, Vec<String>)
                                                 _ => &[],
                                             };
                                             let is_target = act.req_objs == last_cmd_objs && frag.as_ref().map(|f| f.objs() != act.req_objs.as_slice()).unwrap_or(false);
-                                            if is_target && !allowed.iter().any(|x| r.starts_with(&format!("err {x}"))) && r != "ok" {
+                                            // a request object that itself carries a status other than SUCCESS is echoed with
+                                            // it: the first such object ends the comparison with bad_status, before or after the
+                                            // mutated place
+                                            let own_status = !all_success(&act.req_objs) && r.starts_with("err bad_status");
+                                            if is_target && !own_status && !allowed.iter().any(|x| r.starts_with(&format!("err {x}"))) && r != "ok" {
                                                 fail(mon, hdr, "error_matches_cause", "", &format!("op {k}: echo mutated in `{m}` ended request {uid} with `{r}`"));
                                             }
                                         }
